@@ -50,7 +50,7 @@ def metrics_programs(tier, rng, rep):
     except ImportError:
         return []
     out = []
-    for k, sp in enumerate(C11.hw_specs(tier, rng)):
+    for k, sp in enumerate(C11.hw_specs(tier, rng, n=250 if tier == "quick" else 2500)):
         try:
             text = execpipe.compile_text(sp["yaml"], hw=True)
         except Exception:
